@@ -364,7 +364,7 @@ theorem runB_inv (l l' : Ledger) (os : List BOp) (h : runB l os = .ok l') (hl : 
 theorem step_inv (l : Ledger) (o : Op) (hl : LInv l) : LInv (step l o) := by
   obtain ⟨hg, hb⟩ := hl
   cases o with
-  | createGauge deposit total start now dur minDur funds =>
+  | createGauge deposit total start now dur minDur aux funds =>
     simp only [step]
     split
     · rename_i hc
